@@ -540,3 +540,280 @@ def g5_typed_property_call(ctx: Ctx, scope, rule="G5"):
                        "" if not bad else f"'{name}' is a property of {t.name} returning {ann}; calling its value raises TypeError",
                        ctx.prog.loc(f, node), node)
     return n
+
+
+# --------------------------------------------------------------------------- G12  dead parameter
+# A named parameter that the body never reads cannot influence the result: when the signature documents it as an option
+# (not as a slot of a protocol) the option is silently ignored.  Exempt: stubs / abstract methods, methods overriding a
+# base-class method that has the same parameter (signature conformance), and the protocol tables below.
+G12_PROTOCOL_PREFIXES = ("interp_", "extrap_")           # Interpolation / Extrapolation protocol functions
+G12_PROTOCOL_METHODS = {"_monitor_call", "_monitor_pre_call", "_monitor_post_call", "interpolate", "extrapolate", "fold",
+                        "forward", "__call__", "__exit__", "__torch_function__"}
+G12_EXEMPT = {
+    ("DifferenceMonitor.partialconstructor", "op_"): "outside the twenty properties: no trainer or component they cover builds a DifferenceMonitor (noted in DESIGN 6 as an observation)",
+}
+
+
+def _is_stub(node) -> bool:
+    body = strip_doc(node.body)
+    return not body or all(isinstance(s, (ast.Pass, ast.Raise)) or (isinstance(s, ast.Expr) and isinstance(s.value, ast.Constant)) for s in body)
+
+
+def g12_dead_parameter(ctx: Ctx, scope, rule="G12"):
+    n = 0
+    for f in scope:
+        node = f.node
+        if _is_stub(node) or any("abstractmethod" in ast.unparse(d) or "overload" in ast.unparse(d) for d in node.decorator_list):
+            continue
+        a = node.args
+        params = [x.arg for x in a.posonlyargs + a.args + a.kwonlyargs]
+        used = {x.id for x in ast.walk(node) if isinstance(x, ast.Name) and isinstance(x.ctx, (ast.Load, ast.Del))}
+        if any(isinstance(x, ast.Call) and isinstance(x.func, ast.Name) and x.func.id in ("locals", "vars") for x in ast.walk(node)):
+            continue
+        for p in params:
+            if p in ("self", "cls") or p.startswith("_") or p in used:
+                continue
+            if f.name.startswith(G12_PROTOCOL_PREFIXES) or f.name in G12_PROTOCOL_METHODS:
+                continue
+            if f.cls is not None and any(b is not f.cls and p in _params_of(b.methods.get(f.name)) for b in f.cls.mro):
+                continue
+            n += 1
+            why = G12_EXEMPT.get((f.short, p))
+            ctx.ob(rule, f"{f.short}: parameter '{p}' is read", why is not None,
+                   f"exempt: {why}" if why else f"parameter '{p}' is never read in the body: the documented option has no effect", f.where, node)
+    return n
+
+
+def _params_of(fn):
+    if fn is None:
+        return ()
+    a = fn.node.args
+    return [x.arg for x in a.posonlyargs + a.args + a.kwonlyargs]
+
+
+# --------------------------------------------------------------------------- G13  in-place update of state that is not owned
+# `x *= w`, `x.mul_(w)`, `x.add_(...)` on a tensor the function did not create modifies whoever owns it: a connection
+# scaling the synapse's stored current in place, a synapse decaying the view of its own history record.  Owned = created
+# in this function by arithmetic / a creating call, or a plain private field of self.  Not owned = a parameter, the value of
+# a property (views of records), the result of calling a component, or any view (view / reshape / rearrange / indexing) of
+# those.  Updates guarded by the documented `inplace` option are the component's own in-place mode and are exempt.
+_VIEW_METHODS = {"view", "reshape", "unsqueeze", "squeeze", "expand", "expand_as", "permute", "transpose", "t", "detach", "flatten",
+                 "unflatten", "narrow", "select", "unfold", "movedim", "swapaxes", "view_as", "contiguous", "to", "float", "double",
+                 "half", "bool", "long", "int", "type", "requires_grad_", "rearrange"}
+_TORCH_INPLACE = {"add_", "sub_", "mul_", "div_", "fill_", "zero_", "copy_", "clamp_", "clamp_min_", "clamp_max_", "scatter_", "scatter_add_",
+                  "index_put_", "masked_fill_", "masked_scatter_", "exponential_", "normal_", "uniform_", "bernoulli_", "random_", "pow_", "neg_",
+                  "exp_", "log_", "sqrt_", "abs_", "floor_", "ceil_", "round_", "trunc_", "logical_and_", "logical_or_", "logical_not_",
+                  "addcmul_", "addcdiv_", "lerp_", "index_add_", "index_fill_", "index_copy_", "set_", "resize_", "t_", "transpose_",
+                  "squeeze_", "unsqueeze_", "sigmoid_", "tanh_", "relu_", "fmod_", "remainder_", "sign_", "reciprocal_", "cumsum_", "detach_",
+                  "nan_to_num_", "where_", "bitwise_and_", "bitwise_or_", "bitwise_not_", "mul", "true_divide_", "floor_divide_", "sort_"} - {"mul"}
+
+
+def _is_inplace_method(name: str) -> bool:
+    return name in _TORCH_INPLACE
+
+
+def _owned_expr(ctx, f, e, env, depth=0, _seen=None) -> bool:
+    """True when the value of e is a tensor created inside f (so an in-place update cannot be seen elsewhere)."""
+    _seen = set() if _seen is None else _seen
+    if id(e) in _seen:
+        return True                 # a definition in terms of itself (x = x.op_()): decided by the other definitions
+    if depth > 12:
+        return False
+    if not isinstance(e, ast.Name):
+        _seen = _seen | {id(e)}
+    if isinstance(e, (ast.BinOp, ast.UnaryOp, ast.Compare, ast.BoolOp, ast.Constant, ast.List, ast.Tuple, ast.ListComp, ast.JoinedStr)):
+        return True
+    if isinstance(e, ast.IfExp):
+        return _owned_expr(ctx, f, e.body, env, depth + 1, _seen) and _owned_expr(ctx, f, e.orelse, env, depth + 1, _seen)
+    if isinstance(e, ast.Name):
+        defs = env.get(e.id)
+        if defs is None:
+            return False            # parameter / global
+        return all(_owned_expr(ctx, f, d, env, depth + 1, _seen) for d in defs)
+    if isinstance(e, ast.Subscript):
+        return False if not isinstance(e.value, ast.Name) else (_owned_expr(ctx, f, e.value, env, depth + 1, _seen))
+    if isinstance(e, ast.Attribute):
+        if isinstance(e.value, ast.Name) and e.value.id == "self" and f.cls is not None:
+            # a plain field of self is the object's own state; a property may hand out a view of a record
+            # (the tensor containers of core.infrastructure own the storage behind their `value` property)
+            if f.cls.is_subclass_of("ShapedTensor") or f.cls.name in ("ShapedTensor", "VirtualTensor"):
+                return True
+            return f.cls.find_prop(e.attr, "get") is None and not e.attr.endswith("_")
+        return False
+    if isinstance(e, ast.Call):
+        fn = e.func
+        if isinstance(fn, ast.Attribute):
+            if fn.attr in _VIEW_METHODS:
+                return _owned_expr(ctx, f, fn.value, env, depth + 1, _seen)
+            base = dotted(fn.value)
+            if base in ("torch", "F", "torch.nn.functional", "math", "ein", "einops", "torch.special", "torch.linalg"):
+                if fn.attr == "rearrange":
+                    return bool(e.args) and _owned_expr(ctx, f, e.args[0], env, depth + 1, _seen)
+                return fn.attr not in ("as_tensor", "from_numpy", "asarray", "as_strided", "squeeze", "unsqueeze", "reshape", "flatten", "broadcast_to")
+            if _is_inplace_method(fn.attr):
+                return _owned_expr(ctx, f, fn.value, env, depth + 1, _seen)
+            r = ctx.prog.resolve_call(f, e)
+            if r is not None:
+                return False        # result of a component / repo function: may be a view of its state
+            # tensor method producing a new tensor (sum, mean, exp, clone, abs, where, new_zeros, ...)
+            return not isinstance(fn.value, ast.Name) or fn.value.id != "self"
+        if isinstance(fn, ast.Name):
+            if fn.id in ("float", "int", "bool", "len", "abs", "max", "min", "sum", "tuple", "list", "range", "zeros", "ones", "full", "empty",
+                         "zeros_like", "ones_like", "full_like", "empty_like", "fullc", "scalar", "uniform", "normal"):
+                return True
+            return False
+    return False
+
+
+def _local_defs(f):
+    env = {}
+    for n in walk_own(f.node):
+        tgts = []
+        if isinstance(n, ast.Assign):
+            tgts = [(t, n.value) for t in n.targets]
+        elif isinstance(n, ast.AnnAssign) and n.value is not None:
+            tgts = [(n.target, n.value)]
+        elif isinstance(n, (ast.For, ast.AsyncFor)):
+            tgts = [(n.target, ast.Call(func=ast.Name(id="__iter_of__", ctx=ast.Load()), args=[n.iter], keywords=[]))]
+        elif isinstance(n, ast.NamedExpr):
+            tgts = [(n.target, n.value)]
+        for t, v in tgts:
+            if isinstance(t, ast.Name):
+                env.setdefault(t.id, []).append(v)
+            elif isinstance(t, (ast.Tuple, ast.List)):
+                for i, el in enumerate(t.elts):
+                    if isinstance(el, ast.Name):
+                        sub = v.elts[i] if isinstance(v, (ast.Tuple, ast.List)) and len(v.elts) == len(t.elts) else ast.Call(func=ast.Name(id="__unpack__", ctx=ast.Load()), args=[v], keywords=[])
+                        env.setdefault(el.id, []).append(sub)
+    return env
+
+
+def g13_inplace_alias(ctx: Ctx, scope, rule="G13"):
+    from .cfg import CFG
+    n = 0
+    for f in scope:
+        sites = []
+        for x in walk_own(f.node):
+            if isinstance(x, ast.AugAssign) and isinstance(x.target, (ast.Name, ast.Attribute)):
+                sites.append((x, x.target, f"`{ast.unparse(x)[:50]}`"))
+            elif isinstance(x, ast.Call) and isinstance(x.func, ast.Attribute) and _is_inplace_method(x.func.attr) and x.func.attr not in ("requires_grad_",):
+                sites.append((x, x.func.value, f"`{ast.unparse(x)[:50]}`"))
+        if not sites:
+            continue
+        env = _local_defs(f)
+        g = None
+        for node, recv, text in sites:
+            if isinstance(recv, ast.Attribute) and isinstance(recv.value, ast.Name) and recv.value.id == "self" and isinstance(node, ast.AugAssign) \
+                    and f.cls is not None and f.cls.find_prop(recv.attr, "get") is None:
+                continue            # counter / plain field of self
+            owned = _owned_expr(ctx, f, recv, env)
+            guarded = False
+            if not owned:
+                g = g or CFG(f.node)
+                cn = g.node_of(node)
+                if cn is not None:
+                    for t, lab in g.guards_of(cn):
+                        names = {y.attr if isinstance(y, ast.Attribute) else y.id for y in ast.walk(t) if isinstance(y, (ast.Attribute, ast.Name))}
+                        if "inplace" in names and lab == "T":
+                            guarded = True
+                # conditional expression `a.mul_(b) if self.inplace else a.mul(b)`
+                for p in walk_own(f.node):
+                    if isinstance(p, ast.IfExp) and any(y is node for y in ast.walk(p.body)) and "inplace" in ast.unparse(p.test):
+                        guarded = True
+            n += 1
+            ctx.ob(rule, f"{f.short}: in-place update {text} acts on a tensor this function owns", owned or guarded,
+                   "" if owned else ("guarded by the component's documented `inplace` option" if guarded else
+                                     f"`{ast.unparse(recv)[:40]}` is a parameter, a property value or a view of another component's state: "
+                                     f"updating it in place changes that state (stored history, the caller's tensor) behind its owner's back"),
+                   ctx.prog.loc(f, node), node)
+    return n
+
+
+# --------------------------------------------------------------------------- G14  exact comparison through a conversion
+# `a == b` between stored quantities is exact only if neither side went through a conversion that can round
+# (`torch.as_tensor(python float)` is float32; `.float()`, `.to(dtype)`, `.half()`): a double-precision state compared with
+# its own single-precision copy is never equal.
+_ROUNDING_CALLS = {"as_tensor", "tensor", "scalar_tensor", "float", "half", "bfloat16"}
+
+
+def g14_exact_compare(ctx: Ctx, scope, rule="G14"):
+    n = 0
+    for f in scope:
+        env = None
+        for x in walk_own(f.node):
+            if not (isinstance(x, ast.Compare) and len(x.ops) == 1 and isinstance(x.ops[0], (ast.Eq, ast.NotEq))):
+                continue
+            sides = [x.left, x.comparators[0]]
+            env = env or _local_defs(f)
+
+            def unwrap(e, seen):
+                """Strip conversion calls (and single-definition locals); returns (core expression, conversions passed)."""
+                conv = []
+                for _ in range(8):
+                    if isinstance(e, ast.Name) and e.id in env and len(env[e.id]) == 1 and e.id not in seen:
+                        seen.add(e.id)
+                        e = env[e.id][0]
+                        continue
+                    if isinstance(e, ast.Call):
+                        nm = e.func.attr if isinstance(e.func, ast.Attribute) else (e.func.id if isinstance(e.func, ast.Name) else "")
+                        is_to = nm == "to" and (any(k.arg == "dtype" for k in e.keywords) or e.args)
+                        if nm in _ROUNDING_CALLS or is_to:
+                            conv.append(nm)
+                            if isinstance(e.func, ast.Attribute) and not (isinstance(e.func.value, ast.Name) and e.func.value.id in ("torch",)):
+                                e = e.func.value
+                            elif e.args:
+                                e = e.args[0]
+                            else:
+                                break
+                            continue
+                    break
+                return e, conv
+
+            def statey(e):
+                return isinstance(e, (ast.Attribute, ast.Name)) or (isinstance(e, ast.Call) and dotted(e.func) in ("getattr", "rgetattr"))
+            cores = [unwrap(s_, set()) for s_ in sides]
+            if not all(statey(c_) for c_, _ in cores) or any(isinstance(c_, ast.Name) and c_.id in ("self", "cls") for c_, _ in cores):
+                continue
+            if not any(isinstance(c_, ast.Attribute) and isinstance(c_.value, ast.Name) and c_.value.id == "self" for c_, _ in cores):
+                continue
+            bad = [f"`{ast.unparse(s_)[:50]}` passes through `{cv[0]}`" for s_, (_, cv) in zip(sides, cores) if cv]
+            n += 1
+            ctx.ob(rule, f"{f.short}: exact comparison `{ast.unparse(x)[:50]}` compares unconverted values", not bad,
+                   "; ".join(bad) + ": a conversion that can round makes an exact comparison fail for values the narrower type cannot represent" if bad else "",
+                   ctx.prog.loc(f, x), x)
+    return n
+
+
+# --------------------------------------------------------------------------- G2b  role tokens
+# A callee whose name carries one token of an opposing pair (kernel_pre, lr_post, bound_upper ...) is handed only values of
+# its own role: an argument named after the opposite role (and not also after the callee's) is a crossed wire.
+ROLE_PAIRS = (("pre", "post"), ("pos", "neg"), ("upper", "lower"))
+
+
+def _tokens(name: str) -> set:
+    return set(re.split(r"[_\d]+", name.lower()))
+
+
+def g2b_role_tokens(ctx: Ctx, scope, rule="G2b"):
+    n = 0
+    for f in scope:
+        for c in walk_own(f.node):
+            if not isinstance(c, ast.Call):
+                continue
+            nm = c.func.attr if isinstance(c.func, ast.Attribute) else (c.func.id if isinstance(c.func, ast.Name) else "")
+            t = _tokens(nm)
+            for a, b in ROLE_PAIRS:
+                for mine, other in ((a, b), (b, a)):
+                    if mine in t and other not in t:
+                        names = set()
+                        for x in list(c.args) + [k.value for k in c.keywords]:
+                            for y in ast.walk(x):
+                                if isinstance(y, ast.Attribute):
+                                    names.add(y.attr)
+                                elif isinstance(y, ast.Name):
+                                    names.add(y.id)
+                        opp = sorted(x for x in names if other in _tokens(x) and mine not in _tokens(x))
+                        n += 1
+                        ctx.ob(rule, f"{f.short}: `{nm}(...)` receives values of the '{mine}' role only", not opp,
+                               f"argument(s) {opp} belong to the '{other}' role" if opp else "", ctx.prog.loc(f, c), c)
+    return n
